@@ -561,10 +561,10 @@ Lemma step_cases : forall local K t o,
     fst (step local K t o) =
     upd_nth i (apply_slot o (nth i t []) (bucket_entry K (nth i t []) (op_key o))) t.
 Proof.
-  intros local K t o. unfold step.
+  intros local K t o. unfold step, step_gen. fold apply_slot.
   destruct (ilog2 (kxor local (op_key o))) as [i|] eqn:E.
-  - destruct o as [| | k [|] c | |]; simpl in *; rewrite ?E; simpl; auto; right; exists i; auto.
-  - left. destruct o as [| | k [|] c | |]; simpl in *; rewrite ?E; reflexivity.
+  - destruct o as [| | k [|] c | | |]; simpl in *; rewrite ?E; simpl; auto; right; exists i; auto.
+  - left. destruct o as [| | k [|] c | | |]; simpl in *; rewrite ?E; reflexivity.
 Qed.
 
 Lemma step_inv : forall local K t o,
@@ -607,8 +607,8 @@ Lemma step_local : forall local K t o,
   op_key o = local -> fst (step local K t o) = t /\
   (snd (snd (step local K t o)) = 0 \/ snd (snd (step local K t o)) = 4).
 Proof.
-  intros local K t o E. unfold step. rewrite E. rewrite kxor_self_ilog2.
-  destruct o as [| | k [|] c | |]; simpl; auto.
+  intros local K t o E. unfold step, step_gen. rewrite E. rewrite kxor_self_ilog2.
+  destruct o as [| | k [|] c | | |]; simpl; auto.
 Qed.
 
 (* ------------------------------------------------------------------ closest *)
@@ -968,3 +968,411 @@ Proof.
   cbv zeta. split; [repeat constructor|]. split; [reflexivity|].
   split; vm_compute; intro H; inversion H as [|? ? Hn _]; apply Hn; left; reflexivity.
 Qed.
+
+(* ------------------------------------------------------------------ sort first or filter first *)
+
+(* KBucket::closest_iter sorts the whole bucket and then drops the address-less peers; the model
+   drops first.  For a stable insertion sort over full-length keys (whatever keys the dummies
+   carry) the two orders give the same list. *)
+
+Lemma klt_asym : forall a b, klt a b = true -> klt b a = false.
+Proof.
+  induction a as [|x a IH]; intros [|y b]; simpl; intro H; try discriminate; auto.
+  destruct x, y; simpl in *; try discriminate; auto.
+Qed.
+
+Lemma klt_negtrans : forall a b c, length a = length b -> length b = length c ->
+  klt a c = true -> klt a b = true \/ klt b c = true.
+Proof.
+  induction a as [|x a IH]; intros [|y b] [|z c] H1 H2 H; simpl in *; try discriminate.
+  destruct x, y, z; simpl in *; auto; try discriminate; apply IH; auto.
+Qed.
+
+Definition dle (tgt : key) (a b : node) : Prop :=
+  klt (kxor tgt (n_key b)) (kxor tgt (n_key a)) = false.
+
+Definition full (tgt : key) (n : node) : Prop := length (n_key n) = length tgt.
+
+Lemma dle_trans : forall tgt a b c, full tgt a -> full tgt b -> full tgt c ->
+  dle tgt a b -> dle tgt b c -> dle tgt a c.
+Proof.
+  unfold dle, full. intros tgt a b c Fa Fb Fc H1 H2.
+  destruct (klt (kxor tgt (n_key c)) (kxor tgt (n_key a))) eqn:E; [|reflexivity].
+  apply (klt_negtrans _ (kxor tgt (n_key b))) in E; [|rewrite !kxor_length; lia ..].
+  destruct E; congruence.
+Qed.
+
+Lemma ins_le_sorted : forall tgt x l, full tgt x -> Forall (full tgt) l ->
+  StronglySorted (dle tgt) l -> StronglySorted (dle tgt) (ins tgt x l).
+Proof.
+  induction l as [|h l IH]; simpl; intros Fx Fl Hs.
+  - constructor; constructor.
+  - inversion Fl as [|? ? Fh Fl']; subst. inversion Hs as [|? ? Hs' Hf]; subst.
+    destruct (klt (kxor tgt (n_key h)) (kxor tgt (n_key x))) eqn:E.
+    + constructor; [apply IH; auto|].
+      apply Forall_forall. intros y Hy. apply (Permutation_in _ (ins_perm tgt x l)) in Hy.
+      destruct Hy as [<-|Hy]; [unfold dle; apply klt_asym; exact E|].
+      rewrite Forall_forall in Hf. apply Hf. exact Hy.
+    + constructor; [exact Hs|]. constructor; [exact E|].
+      apply Forall_forall. intros y Hy. rewrite Forall_forall in Hf, Fl'.
+      apply (dle_trans tgt x h y); auto.
+Qed.
+
+Lemma sort_full : forall tgt l, Forall (full tgt) l -> Forall (full tgt) (sort_by_dist tgt l).
+Proof.
+  intros tgt l H. apply Forall_forall. intros y Hy.
+  apply (Permutation_in _ (sort_perm tgt l)) in Hy. rewrite Forall_forall in H. auto.
+Qed.
+
+Lemma sort_le_sorted : forall tgt l, Forall (full tgt) l ->
+  StronglySorted (dle tgt) (sort_by_dist tgt l).
+Proof.
+  induction l as [|x l IH]; simpl; intro H; [constructor|].
+  inversion H; subst. apply ins_le_sorted; auto. apply sort_full; auto.
+Qed.
+
+Lemma ins_head : forall tgt x l,
+  (forall y, In y l -> klt (kxor tgt (n_key y)) (kxor tgt (n_key x)) = false) ->
+  ins tgt x l = x :: l.
+Proof.
+  intros tgt x [|h l] H; simpl; auto. rewrite (H h); auto. left; reflexivity.
+Qed.
+
+Lemma filter_ins : forall tgt (p : node -> bool) x l,
+  full tgt x -> Forall (full tgt) l -> StronglySorted (dle tgt) l ->
+  filter p (ins tgt x l) = if p x then ins tgt x (filter p l) else filter p l.
+Proof.
+  induction l as [|h l IH]; simpl; intros Fx Fl Hs.
+  - destruct (p x); reflexivity.
+  - inversion Fl as [|? ? Fh Fl']; subst. inversion Hs as [|? ? Hs' Hf]; subst.
+    destruct (klt (kxor tgt (n_key h)) (kxor tgt (n_key x))) eqn:E; simpl.
+    + rewrite IH by auto. destruct (p h) eqn:Ph, (p x) eqn:Px; simpl; rewrite ?E; reflexivity.
+    + destruct (p x) eqn:Px; [|reflexivity].
+      symmetry. apply ins_head. intros y Hy.
+      assert (Hy' : In y (h :: l)).
+      { destruct (p h); [destruct Hy as [<-|Hy]; [left; reflexivity|right]|right];
+          apply filter_In in Hy; tauto. }
+      destruct Hy' as [<-|Hy']; [exact E|].
+      rewrite Forall_forall in Hf, Fl'.
+      apply (dle_trans tgt x h y); auto.
+Qed.
+
+Lemma filter_sort_commute : forall tgt (p : node -> bool) l, Forall (full tgt) l ->
+  filter p (sort_by_dist tgt l) = sort_by_dist tgt (filter p l).
+Proof.
+  induction l as [|x l IH]; simpl; intro H; auto.
+  inversion H; subst.
+  rewrite filter_ins; auto using sort_full, sort_le_sorted.
+  destruct (p x); simpl; rewrite IH; auto.
+Qed.
+
+(* the code's order of operations, on the bucket as the implementation holds it *)
+Definition bucket_closest_code (tgt : key) (b : list node) : list node :=
+  filter n_addr (sort_by_dist tgt b).
+
+(* b' = the bucket with real keys in the dummies: same nodes except that a model dummy (empty key,
+   no address) may stand for any address-less node *)
+Definition same_but_dummies (b b' : list node) : Prop :=
+  Forall2 (fun n n' => n = n' \/ (n_addr n = false /\ n_addr n' = false)) b b'.
+
+Lemma same_but_dummies_filter : forall b b', same_but_dummies b b' ->
+  filter n_addr b = filter n_addr b'.
+Proof.
+  induction 1 as [|n n' b b' H _ IH]; simpl; auto.
+  destruct H as [<-|[H1 H2]]; [destruct (n_addr n); congruence|]. rewrite H1, H2. exact IH.
+Qed.
+
+Lemma bucket_closest_code_eq : forall tgt b b',
+  same_but_dummies b b' -> Forall (full tgt) b' ->
+  bucket_closest_code tgt b' = bucket_closest tgt b.
+Proof.
+  intros tgt b b' Hs Hf. unfold bucket_closest_code, bucket_closest.
+  rewrite filter_sort_commute by exact Hf. rewrite (same_but_dummies_filter b b' Hs). reflexivity.
+Qed.
+
+(* ------------------------------------------------------------------ replies to FIND_NODE etc. *)
+
+Lemma closest_in_bucket : forall local t tgt k n,
+  In n (closest local t tgt k) -> n_addr n = true /\ exists i, In n (nth i t []).
+Proof.
+  intros local t tgt k n H. unfold closest in H.
+  assert (H' : In n (all_closest local t tgt)).
+  { rewrite <- (firstn_skipn k). apply in_app_iff. left. exact H. }
+  unfold all_closest in H'. apply in_flat_map in H'. destruct H' as [i [_ Hi]].
+  unfold bucket_closest in Hi. apply (Permutation_in _ (sort_perm _ _)) in Hi.
+  apply filter_In in Hi. destruct Hi as [Hi Ha]. split; auto. exists i. exact Hi.
+Qed.
+
+Lemma reply_sound : forall local K s tgt k n,
+  Inv local K (k_table s) -> In n (reply local s tgt k) ->
+  n_key n <> local /\ n_addr n = true /\ length (n_key n) = length local /\
+  exists i, In n (nth i (k_table s) []) /\ ilog2 (kxor local (n_key n)) = Some i.
+Proof.
+  intros local K s tgt k n HI H. unfold reply in H.
+  destruct (closest_in_bucket _ _ _ _ _ H) as [Ha [i Hi]].
+  destruct (binv_addr _ _ _ _ _ (inv_nth local K _ i HI) Hi Ha) as [Hl Hx].
+  split; [|split; [exact Ha|split; [exact Hl|exists i; auto]]].
+  intro E. rewrite E, kxor_self_ilog2 in Hx. discriminate.
+Qed.
+
+Lemma reply_at_most_k : forall local s tgt k, length (reply local s tgt k) <= k.
+Proof. intros. unfold reply, closest. apply firstn_le_length. Qed.
+
+(* ------------------------------------------------------------------ the Kademlia glue *)
+
+Definition wf_kop (local : key) (o : kop) : Prop :=
+  match o with
+  | KUpdate l => Forall (fun pa => length (fst pa) = length local) l
+  | KAddKnown p _ | KEstablished p _ _ | KDisconnect p | KTouch p | KDialFailure p _ | KEntry p =>
+      length p = length local
+  end.
+
+Definition kop_keys (o : kop) : list key :=
+  match o with
+  | KUpdate l => map fst l
+  | KAddKnown p _ | KEstablished p _ _ | KDisconnect p | KTouch p | KDialFailure p _ | KEntry p => [p]
+  end.
+
+Lemma tstep_inv : forall local K t o, Inv local K t -> length (op_key o) = length local ->
+  Inv local K (tstep add_conn local K t o).
+Proof. intros. unfold tstep. apply step_inv; auto. Qed.
+
+Lemma kupdate_cons : forall ac local K s pa l,
+  kupdate ac local K s (pa :: l) =
+  kupdate ac local K (if key_eqb (fst pa) local then s else kadd ac local K s pa) l.
+Proof. reflexivity. Qed.
+
+Lemma kupdate_inv : forall local K l s, Inv local K (k_table s) ->
+  Forall (fun pa => length (fst pa) = length local) l ->
+  Inv local K (k_table (kupdate add_conn local K s l)).
+Proof.
+  induction l as [|pa l IH]; intros s HI HF; [exact HI|].
+  inversion HF; subst. rewrite kupdate_cons. apply IH; [|assumption].
+  match goal with |- context [if ?c then _ else _] => destruct c end; [exact HI|].
+  simpl. apply tstep_inv; auto.
+Qed.
+
+Lemma kstep_inv : forall local K s o, Inv local K (k_table s) -> wf_kop local o ->
+  Inv local K (k_table (kstep local K s o)).
+Proof.
+  intros local K s o HI Hw. destruct o; simpl in *; auto; try (apply tstep_inv; auto).
+  apply kupdate_inv; auto.
+Qed.
+
+Lemma krun_inv : forall local K h s, Inv local K (k_table s) -> Forall (wf_kop local) h ->
+  Inv local K (k_table (krun local K s h)).
+Proof.
+  induction h as [|o h IH]; simpl; intros s HI HF; auto.
+  inversion HF; subst. apply IH; auto. apply kstep_inv; auto.
+Qed.
+
+Lemma tstep_keeps : forall local K t o j n,
+  In n (nth j t []) -> protected n = true -> n_key n <> op_key o ->
+  In n (nth j (tstep add_conn local K t o) []).
+Proof. intros. unfold tstep. apply step_keeps; auto. Qed.
+
+Lemma kupdate_keeps : forall local K l s j n,
+  In n (nth j (k_table s) []) -> protected n = true -> ~ In (n_key n) (map fst l) ->
+  In n (nth j (k_table (kupdate add_conn local K s l)) []).
+Proof.
+  induction l as [|pa l IH]; intros s j n Hin Hp Hn; [exact Hin|].
+  rewrite kupdate_cons. simpl in Hn. apply IH; [|exact Hp|tauto].
+  match goal with |- context [if ?c then _ else _] => destruct c end; [exact Hin|]. simpl.
+  apply tstep_keeps; [exact Hin|exact Hp|]. simpl. intro E. apply Hn. left. congruence.
+Qed.
+
+(* a Connected / CanConnect peer survives every glue operation that does not name it *)
+Lemma kstep_keeps : forall local K s o j n,
+  In n (nth j (k_table s) []) -> protected n = true -> ~ In (n_key n) (kop_keys o) ->
+  In n (nth j (k_table (kstep local K s o)) []).
+Proof.
+  intros local K s o j n Hin Hp Hn.
+  destruct o; simpl in *; auto; try (apply tstep_keeps; auto; simpl; intro E; apply Hn; left; congruence).
+  apply kupdate_keeps; auto.
+Qed.
+
+(* F-C14b (fixed): the only thing that takes Connected away from an entry is disconnect_peer for
+   that very peer.  Table level, for the add_known_peer rule `ac`: *)
+Definition keeps_connected (ac : conn -> conn -> conn) : Prop :=
+  ac Connected Connected = Connected /\ ac Connected NotConnected = Connected.
+
+Definition conn_still (n n' : node) : Prop :=
+  n_key n' = n_key n /\ n_conn n' = Connected /\ (n_addr n = true -> n_addr n' = true).
+
+Lemma conn_still_refl : forall n, n_conn n = Connected -> conn_still n n.
+Proof. intros n H. split; auto. Qed.
+
+Lemma step_gen_cases : forall ac local K t o,
+  fst (step_gen ac local K t o) = t \/
+  exists i, ilog2 (kxor local (op_key o)) = Some i /\
+    fst (step_gen ac local K t o) =
+    upd_nth i (apply_slot_gen ac o (nth i t []) (bucket_entry K (nth i t []) (op_key o))) t.
+Proof.
+  intros ac local K t o. unfold step_gen.
+  destruct (ilog2 (kxor local (op_key o))) as [i|] eqn:E.
+  - destruct o as [| | k [|] c | | |]; simpl in *; rewrite ?E; simpl; auto; right; exists i; auto.
+  - left. destruct o as [| | k [|] c | | |]; simpl in *; rewrite ?E; reflexivity.
+Qed.
+
+Lemma node_eq_dec_or : forall n y : node, n = y \/ n <> y.
+Proof.
+  intros n y.
+  assert (D : {n = y} + {n <> y}).
+  { decide equality; [decide equality | apply bool_dec | apply (list_eq_dec bool_dec)]. }
+  destruct D; auto.
+Qed.
+
+Lemma apply_slot_connected : forall ac K b o n,
+  keeps_connected ac ->
+  In n b -> n_conn n = Connected ->
+  (forall k a c, o = OAdd k a c -> c = Connected \/ c = NotConnected) ->
+  o <> ODisconnected (n_key n) ->
+  exists n', In n' (apply_slot_gen ac o b (bucket_entry K b (op_key o))) /\ conn_still n n'.
+Proof.
+  intros ac K b o n [Hac1 Hac2] Hin Hc Hadd Hnd.
+  set (k := op_key o) in *.
+  assert (Hmid : forall a y y' c, In n (a ++ y :: c) -> n <> y -> In n (a ++ y' :: c)).
+  { intros a y y' c H Hny. apply in_app_iff in H. apply in_app_iff.
+    destruct H as [H|[H|H]]; [left; exact H|congruence|right; right; exact H]. }
+  assert (Hnew : forall (a : list node) (y' : node) (c : list node), In y' (a ++ y' :: c)).
+  { intros. apply in_app_iff. right. left. reflexivity. }
+  unfold bucket_entry.
+  destruct (split_first (has_key k) b) as [[[a y] c]|] eqn:E1.
+  - apply split_first_some in E1. destruct E1 as [Eb [Hy _]]. subst b.
+    unfold has_key in Hy. apply key_eqb_eq in Hy.
+    destruct (node_eq_dec_or n y) as [<-|Hny].
+    + (* the entry itself is operated on *)
+      destruct o as [k0|k0 a0 c0|k0 a0 c0|k0 d0|k0 a0|k0]; simpl in *.
+      * exists n. split; [exact Hin|apply conn_still_refl; exact Hc].
+      * exists n. split; [exact Hin|apply conn_still_refl; exact Hc].
+      * eexists. split; [apply Hnew|]. split; simpl; auto. split; auto.
+        rewrite Hc. destruct (Hadd _ _ _ eq_refl) as [->| ->]; assumption.
+      * eexists. split; [apply Hnew|]. split; simpl; auto. split; auto.
+        intro Ha. rewrite Ha. reflexivity.
+      * eexists. split; [apply Hnew|]. split; simpl; auto. split; auto.
+        intro Ha. rewrite Ha. reflexivity.
+      * exfalso. apply Hnd. unfold k in Hy. simpl in Hy. congruence.
+    + exists n. split; [|apply conn_still_refl; exact Hc].
+      destruct o; simpl; try exact Hin; eapply Hmid; eauto.
+  - exists n. split; [|apply conn_still_refl; exact Hc].
+    destruct (length b <? K).
+    + destruct o; simpl; apply in_app_iff; left; exact Hin.
+    + destruct (split_first replaceable b) as [[[a y] c]|] eqn:E3.
+      * apply split_first_some in E3. destruct E3 as [Eb [Hy _]]. subst b.
+        assert (n <> y).
+        { intro E. subst y. unfold replaceable in Hy. rewrite Hc in Hy. discriminate. }
+        destruct o; simpl; try exact Hin; eapply Hmid; eauto.
+      * destruct o; simpl; exact Hin.
+Qed.
+
+Lemma tstep_connected : forall ac local K t o j n,
+  keeps_connected ac ->
+  In n (nth j t []) -> n_conn n = Connected ->
+  (forall k a c, o = OAdd k a c -> c = Connected \/ c = NotConnected) ->
+  o <> ODisconnected (n_key n) ->
+  exists n', In n' (nth j (tstep ac local K t o) []) /\ conn_still n n'.
+Proof.
+  intros ac local K t o j n Hac Hin Hc Hadd Hnd. unfold tstep.
+  destruct (step_gen_cases ac local K t o) as [E|[i [Hi E]]]; rewrite E.
+  - exists n. split; [exact Hin|apply conn_still_refl; exact Hc].
+  - destruct (Nat.eq_dec j i) as [->|Hji].
+    + assert (Hlt : i < length t).
+      { destruct (Nat.lt_ge_cases i (length t)) as [H|H]; auto.
+        rewrite nth_overflow in Hin by exact H. destruct Hin. }
+      rewrite nth_upd_same by exact Hlt. apply apply_slot_connected; auto.
+    + rewrite nth_upd_other by exact Hji.
+      exists n. split; [exact Hin|apply conn_still_refl; exact Hc].
+Qed.
+
+Lemma conn_still_trans : forall a b c, conn_still a b -> conn_still b c -> conn_still a c.
+Proof.
+  intros a b c [H1 [H2 H3]] [H4 [H5 H6]]. split; [congruence|]. split; auto.
+Qed.
+
+Lemma believed_cases : forall ps p, believed ps p = Connected \/ believed ps p = NotConnected.
+Proof. intros. unfold believed. destruct (in_peers ps p); auto. Qed.
+
+Lemma kadd_connected : forall ac local K s pa j n,
+  keeps_connected ac -> In n (nth j (k_table s) []) -> n_conn n = Connected ->
+  exists n', In n' (nth j (k_table (kadd ac local K s pa)) []) /\ conn_still n n'.
+Proof.
+  intros ac local K s pa j n Hac Hin Hc. simpl. apply tstep_connected; auto.
+  - intros k a c E. inversion E; subst. apply believed_cases.
+  - discriminate.
+Qed.
+
+Lemma kupdate_connected : forall ac local K l s j n,
+  keeps_connected ac -> In n (nth j (k_table s) []) -> n_conn n = Connected ->
+  exists n', In n' (nth j (k_table (kupdate ac local K s l)) []) /\ conn_still n n'.
+Proof.
+  induction l as [|pa l IH]; intros s j n Hac Hin Hc.
+  - exists n. split; [exact Hin|apply conn_still_refl; exact Hc].
+  - rewrite kupdate_cons.
+    assert (H : exists n1, In n1 (nth j (k_table (if key_eqb (fst pa) local then s
+                                                  else kadd ac local K s pa)) []) /\ conn_still n n1).
+    { match goal with |- context [if ?c then _ else _] => destruct c end.
+      - exists n. split; [exact Hin|apply conn_still_refl; exact Hc].
+      - apply kadd_connected; auto. }
+    destruct H as [n1 [H1 S1]].
+    destruct (IH _ j n1 Hac H1 (proj1 (proj2 S1))) as [n2 [H2 S2]].
+    exists n2. split; [exact H2|]. eapply conn_still_trans; eauto.
+Qed.
+
+(* Kademlia level: under every glue operation except disconnect_peer of that very peer, an entry
+   that says Connected is still there and still says Connected (and keeps its address flag) *)
+Lemma kstep_connected : forall ac local K s o j n,
+  keeps_connected ac -> In n (nth j (k_table s) []) -> n_conn n = Connected ->
+  o <> KDisconnect (n_key n) ->
+  exists n', In n' (nth j (k_table (kstep_gen ac local K s o)) []) /\ conn_still n n'.
+Proof.
+  intros ac local K s o j n Hac Hin Hc Hnd.
+  destruct o as [p a|p d pe|p|p|l|p a|p]; simpl.
+  - apply (kadd_connected ac local K s (p, a) j n); auto.
+  - apply tstep_connected; auto; discriminate.
+  - apply tstep_connected; auto; try discriminate. intro E. apply Hnd. congruence.
+  - exists n. split; [exact Hin|apply conn_still_refl; exact Hc].
+  - apply kupdate_connected; auto.
+  - apply tstep_connected; auto; discriminate.
+  - apply tstep_connected; auto; discriminate.
+Qed.
+
+Lemma krun_connected : forall ac local K h s j n,
+  keeps_connected ac -> In n (nth j (k_table s) []) -> n_conn n = Connected ->
+  ~ In (KDisconnect (n_key n)) h ->
+  exists n', In n' (nth j (k_table (krun_gen ac local K s h)) []) /\ conn_still n n'.
+Proof.
+  induction h as [|o h IH]; intros s j n Hac Hin Hc Hnd; simpl.
+  - exists n. split; [exact Hin|apply conn_still_refl; exact Hc].
+  - destruct (kstep_connected ac local K s o j n Hac Hin Hc) as [n1 [H1 S1]].
+    { intro E. apply Hnd. left. exact E. }
+    destruct (IH _ j n1 Hac H1 (proj1 (proj2 S1))) as [n2 [H2 S2]].
+    { destruct S1 as [E _]. rewrite E. intro H. apply Hnd. right. exact H. }
+    exists n2. split; [exact H2|]. eapply conn_still_trans; eauto.
+Qed.
+
+Lemma add_conn_keeps : keeps_connected add_conn.
+Proof. split; reflexivity. Qed.
+
+(* F-C14b before the repair: a mention in a reply (no disconnect anywhere in the history) turns the
+   Connected entry of a peer with an open connection into NotConnected *)
+Lemma downgrade_orig_witness :
+  let local := [false; false; false] in
+  let p := [true; false; true] in
+  let h := [KAddKnown p true; KEstablished p true false; KUpdate [(p, true)]] in
+  Forall (wf_kop local) h /\ ~ In (KDisconnect p) h /\
+  nth 2 (k_table (krun_gen add_conn_orig local 20 (kad_empty 3) (firstn 2 h))) [] =
+    [mkNode p true Connected] /\
+  nth 2 (k_table (krun_gen add_conn_orig local 20 (kad_empty 3) h)) [] =
+    [mkNode p true NotConnected] /\
+  nth 2 (k_table (krun local 20 (kad_empty 3) h)) [] = [mkNode p true Connected].
+Proof.
+  cbv zeta. split; [repeat constructor|]. split.
+  - intros [H|[H|[H|[]]]]; discriminate.
+  - vm_compute. auto.
+Qed.
+
+Definition kreach (local : key) (K : nat) (h : list kop) : kad :=
+  krun local K (kad_empty (length local)) h.
+
+Lemma kreach_inv : forall local K h, Forall (wf_kop local) h -> Inv local K (k_table (kreach local K h)).
+Proof. intros. apply krun_inv; auto. apply empty_inv. Qed.
